@@ -22,6 +22,10 @@ def nontrivial(line, rec):
 
 
 def run(ctx):
+    import clilib
+    clilib.stream(ctx, "cliverdict", gen.cliverdict_lines(ctx.rng.fork("cliverdict"), 2, 2, 400 if ctx.quick else 8000, (0, 1), 4, 4, 16, False),
+                  "cmr-graphic [-t]: verdict line vs. the definition-level oracle on the matrix parsed from the input bytes",
+                  lambda c: gen.CLIVERDICT_CODES.get(c, str(c)))
     q = ctx.quick
     lines = []
     bound = 12 if q else 20
